@@ -15,6 +15,7 @@
 #include <cstring>
 #include <exception>
 #include <fstream>
+#include <limits>
 #include <functional>
 #include <iostream>
 #include <map>
@@ -212,7 +213,11 @@ struct Block {
     }
     Block(const Block&) = delete;
     Block& operator=(const Block&) = delete;
+    // An empty query is passed alternately as the default view (null data pointer) and as a view of a
+    // zero-length block: both are the empty byte string.
     std::string_view sv() const {
+        static thread_local unsigned empties = 0;   // per thread: concurrent cases build views too
+        if (n == 0 && (empties++ & 1U) == 0) return std::string_view();
         return std::string_view(p, n);
     }
     void scrub_bytes() {
@@ -957,6 +962,24 @@ struct TrieSession {
                 }
                 out("truncall " + u64s(bytes.size()) + " " + (list.empty() ? std::string("-") : list));
             });
+        } else if (o == "SAVEOVER") {   // save onto an existing file that is <extra> bytes longer than the dictionary
+            std::uint64_t extra = 0;
+            if (tk.size() != 2 || !parse_u64(tk[1], extra)) return (void)bad_arg(out, line);
+            guarded(out, "saveover", [&] {
+                std::vector<std::uint8_t> want = saved_image(*cur);
+                TempFile tf;
+                {
+                    std::ofstream pre(tf.path, std::ios::binary);
+                    std::string junk(want.size() + extra, '\xAA');
+                    pre.write(junk.data(), static_cast<std::streamsize>(junk.size()));
+                    pre.close();
+                    if (!pre) throw std::runtime_error("cannot prepare the existing file");
+                }
+                std::uint64_t r = xcdat::save(*cur, tf.path);
+                std::vector<std::uint8_t> got;
+                if (!read_file(tf.path, got)) throw std::runtime_error("cannot read saved file");
+                out("saveover ret:" + u64s(r) + " size:" + u64s(got.size()) + " same:" + (got == want ? "1" : "0"));
+            });
         } else if (o == "LIMIT") {
             std::uint64_t n = 0;
             if (tk.size() != 2 || !parse_u64(tk[1], n)) return (void)bad_arg(out, line);
@@ -1374,9 +1397,21 @@ void run_bv_case(const Case& c, const Out& out) {
 // kind `cv`
 // ---------------------------------------------------------------------------
 
+template <class T>
+std::vector<T> narrowed(const std::vector<std::uint64_t>& v) {
+    std::vector<T> r;
+    r.reserve(v.size());
+    for (std::uint64_t x : v) {
+        if (x > std::numeric_limits<T>::max()) throw std::runtime_error("value does not fit the container type");
+        r.push_back(static_cast<T>(x));
+    }
+    return r;
+}
+
 void run_cv_case(const Case& c, const Out& out) {
     std::vector<std::uint64_t> vals;
     std::unique_ptr<xcdat::compact_vector> cv;
+    std::string ctype = "u64";   // element type of the container handed to the constructor (op CT)
     for (const auto& line : c.body) {
         auto tk = split_ws(line);
         if (tk.empty()) continue;
@@ -1385,12 +1420,26 @@ void run_cv_case(const Case& c, const Out& out) {
         if (o == "V") {
             if (tk.size() != 2 || !parse_u64(tk[1], x)) { bad_arg(out, line); continue; }
             vals.push_back(x);
+        } else if (o == "CT") {       // silent: selects the container element type u8|u16|u32|u64
+            if (tk.size() != 2 || (tk[1] != "u8" && tk[1] != "u16" && tk[1] != "u32" && tk[1] != "u64")) { bad_arg(out, line); continue; }
+            ctype = tk[1];
         } else if (o == "BUILD") {
             if (tk.size() != 1) { bad_arg(out, line); continue; }
             guarded(out, "cv", [&] {
                 cv.reset();
-                const std::vector<std::uint64_t>& ref = vals;
-                cv = std::make_unique<xcdat::compact_vector>(ref);
+                if (ctype == "u8") {
+                    const std::vector<std::uint8_t> ref = narrowed<std::uint8_t>(vals);
+                    cv = std::make_unique<xcdat::compact_vector>(ref);
+                } else if (ctype == "u16") {
+                    const std::vector<std::uint16_t> ref = narrowed<std::uint16_t>(vals);
+                    cv = std::make_unique<xcdat::compact_vector>(ref);
+                } else if (ctype == "u32") {
+                    const std::vector<std::uint32_t> ref = narrowed<std::uint32_t>(vals);
+                    cv = std::make_unique<xcdat::compact_vector>(ref);
+                } else {
+                    const std::vector<std::uint64_t>& ref = vals;
+                    cv = std::make_unique<xcdat::compact_vector>(ref);
+                }
                 out("cv " + component_hex(*cv));
             });
         } else if (o == "ALL") {
